@@ -20,7 +20,7 @@ def define(fid, prop, component, text, pred):
 
 
 def pos(cell):
-    return cell.split("|")[0].split(".after[")[0].replace(".first", "")
+    return cell.split("|")[0].split(".after[")[0].replace(".first", "").replace(".hexlike", "")
 
 
 define("KF-C04-1", "C04", "expr",
